@@ -19,7 +19,7 @@ from ..core import Check, Ctx
 ID = "C17"
 RULE = (
     "datasets: base classes {mono, multiband+mask, grids+classif+segm+ROI coordinates, mono with NaN pixels and right "
-    "disparity} x every single and every pair of the 19 dataset violations (exhaustive), plus Hypothesis-generated "
+    "disparity} x every single and every pair of the 20 dataset violations (exhaustive), plus Hypothesis-generated "
     "well-formed pairs with 0-3 violations; inputs: base input sections {int interval, left grid, both grids, "
     "multiband with mask/classif/segm} on real GeoTIFFs x every single and pair of the 17 input violations. "
     "Non-trivial = a well-formed case using >= 2 optional features, or a malformed case with exactly one violation; "
@@ -33,7 +33,8 @@ ASSUMPTIONS = [
 ATTRS = ["no_data_img", "valid_pixels", "no_data_mask", "crs", "transform"]
 DS_VIOLATIONS = (["L:no-im", "R:no-im", "L:all-nan", "R:all-nan", "L:band-not-str", "R:band-not-str", "L:msk-off-grid",
                   "R:msk-off-grid"] + [f"L:attr-{a}" for a in ATTRS[:3]] + [f"R:attr-{a}" for a in ATTRS[3:]] +
-                 ["L:no-disparity", "L:band_disp-names", "L:no-band_disp", "L:min>max", "R:min>max", "R:other-size"])
+                 ["L:no-disparity", "L:band_disp-names", "L:band_disp-only-min", "L:no-band_disp", "L:min>max", "R:min>max",
+                  "R:other-size"])
 
 
 def base_pair(cls: int, seed: int = 0):
@@ -96,7 +97,10 @@ def apply_ds(l: xr.Dataset, r: xr.Dataset, v: str):
         if "im" in ds:
             h, w = ds["im"].shape[-2:]
             ds = ds.drop_vars("msk", errors="ignore")
-            ds["msk"] = xr.DataArray(np.zeros((h + 1, w), dtype=np.int16), dims=["row_m", "col"])
+            if side == "L":
+                ds["msk"] = xr.DataArray(np.zeros((h + 1, w), dtype=np.int16), dims=["row_m", "col"])
+            else:
+                ds["msk"] = xr.DataArray(np.zeros((h, w + 1), dtype=np.int16), dims=["row", "col_m"])
     elif what.startswith("attr-"):
         ds.attrs.pop(what[5:], None)
     elif what == "no-disparity":
@@ -104,6 +108,9 @@ def apply_ds(l: xr.Dataset, r: xr.Dataset, v: str):
     elif what == "band_disp-names":
         if "disparity" in ds:
             ds = ds.assign_coords(band_disp=["lo", "hi"])
+    elif what == "band_disp-only-min":
+        if "disparity" in ds:
+            ds = ds.assign_coords(band_disp=["min", "hi"])
     elif what == "no-band_disp":
         if "disparity" in ds:
             d = ds["disparity"].data
@@ -138,7 +145,7 @@ def judge_ds(ctx: Ctx, cls: int, vs, seed: int = 0):
     for v in vs:
         side, what = v.split(":")
         ds = l if side == "L" else r
-        if what in ("band_disp-names", "no-band_disp", "min>max") and "disparity" not in ds:
+        if what in ("band_disp-names", "band_disp-only-min", "no-band_disp", "min>max") and "disparity" not in ds:
             continue
         if what in ("all-nan", "other-size") and "im" not in ds:
             continue
